@@ -1069,6 +1069,10 @@ func (c *Catalog) NodeServiceList(args *structs.NodeSpecificRequest, reply *stru
 
 			if mergedServices != nil {
 				reply.NodeServices = *mergedServices
+			} else {
+				// The node is gone: a blocking query that was woken by its
+				// deregistration must not hand back the previous pass's result.
+				reply.NodeServices = structs.NodeServiceList{}
 			}
 
 			// Note: we filter the results with ACLs *before* applying the user-supplied
